@@ -34,8 +34,12 @@ Unary  == /\ a = b
                /\ Want("C07") => \A x \in W :
                                /\ Emit([op |-> "iv.contains", ty |-> ty, n |-> N, a |-> a, x |-> x])
                                /\ Emit([op |-> "iv.range_contains", ty |-> ty, n |-> N, a |-> a, x |-> x])
+               \* C14: the view of an interval as a range (start_bound / end_bound) is one of its conversions
+               /\ (Prop = "C14") => \A x \in W : Emit([op |-> "iv.range_contains", ty |-> ty, n |-> N, a |-> a, x |-> x])
                /\ Want("C14") => Emit([op |-> "iv.observe", ty |-> ty, n |-> N, a |-> a])
                /\ Want("C19") => Emit([op |-> "iv.display", ty |-> ty, n |-> N, a |-> a])
+          \* Display of elements whose own rendering is very long (extreme float magnitudes, long strings)
+          /\ Want("C19") => \A ty \in {"f64ext", "Stringlong"} : Emit([op |-> "iv.display", ty |-> ty, n |-> N, a |-> a])
 
 \* constructors: every pair of raw bounds (ordered, equal, inverted) through every path;
 \* driven from the register contents: lo/hi are taken from two two-sided registers' low ends
@@ -64,6 +68,8 @@ BinArith == \A ty \in BoxTypes, op \in {"add", "sub"} :
 Relative == Emit([op |-> "iv.relative_to", ty |-> "f64", a |-> a, b |-> b,
                   grid |-> RelGrid, scale |-> RelScale])
 
+Relative3 == Emit([op |-> "iv.relative_round", ty |-> "f64", a |-> a, b |-> b, scale |-> RelScale])
+
 Next == /\ ~done
         /\ done' = TRUE
         /\ UNCHANGED <<a, b>>
@@ -71,6 +77,7 @@ Next == /\ ~done
                                       /\ ((Want("C14") /\ a.k = "two" /\ b.k = "two" /\ a.lo = a.hi /\ b.lo = b.hi) => Make))
              [] Family = "box"   -> (BinArith /\ (a = b => Scalar))
              [] Family = "rel"   -> Relative
+             [] Family = "rel3"  -> Relative3
 
 Spec == Init /\ [][Next]_vars
 =============================================================================
